@@ -31,6 +31,16 @@ for _c in ("missing-priority", "missing-arrival", "later-priority", "later-arriv
 VALUES = [0, 0.0, 1, 3, 0.5, 0.1, 1e-9, 1e21, 2 ** 53, 123456.789, 1 / 3, 55, 37.5, 2.5e-5]
 
 
+def odd_id(rng, j):
+    """Pipeline identifiers are free text: mostly plain, sometimes with characters a CSV file has to quote, non-ASCII
+    letters, digits only, or very long (always unique through the running number)."""
+    r = rng.random()
+    if r < 0.75:
+        return f"x{j}"
+    return rng.choice(["job, nightly #{}", 'say "hi" {}', "größe-{}-日本", "{}", "0{}", " padded {} ", "x" * 300 + "{}",
+                       "a;b;{}", "tab\there{}", "-{}", "1e{}", "None{}", "p{}'"]).format(j)
+
+
 def rand_pipeline(rng, pid):
     n = rng.choice([1, 1, 2, 3, 4, 6, 9, 12])
     parents = gen.random_dag(rng, n)
@@ -79,7 +89,7 @@ def cases(tier, seed, shard, nshards):
         while j < npipes:
             t += rng.choice([0, 1, 1, 5, 40])
             for _ in range(rng.choice([1, 1, 2, 4])):
-                arrivals.setdefault(str(t), []).append(rand_pipeline(rng, f"x{j}"))
+                arrivals.setdefault(str(t), []).append(rand_pipeline(rng, odd_id(rng, j)))
                 j += 1
         yield {"kind": "roundtrip", "tps": tps, "arrivals": arrivals, "ticks": t + 2,
                "malform": [(rng.choice(MALFORM_KINDS), rng.random()) for _ in range(6)]}
